@@ -249,7 +249,8 @@ fn advance_pos(result: &Buffer, pos: &mut Position) -> bool {
 fn read_data_compressed(result: &mut Buffer, bytes: &[u8]) -> EngineResult<bool> {
     let mut pos = Position::default();
     let mut o = 0;
-    while o < bytes.len() {
+    // data beyond the declared height is not part of the picture (set_char ignores it)
+    while o < bytes.len() && pos.y < result.get_height() {
         let xbin_compression = bytes[o];
 
         o += 1;
@@ -363,7 +364,7 @@ fn encode_attr(buf: &Buffer, ch: AttributedChar, fonts: &[usize]) -> u8 {
 fn read_data_uncompressed(result: &mut Buffer, bytes: &[u8]) -> EngineResult<bool> {
     let mut pos = Position::default();
     let mut o = 0;
-    while o < bytes.len() {
+    while o < bytes.len() && pos.y < result.get_height() {
         if o + 1 >= bytes.len() {
             // last byte is not important enough to throw an error
             // there seem to be some invalid files out there.
